@@ -746,9 +746,7 @@ class C10(Prop):
     ps = [unwpath(p) for p in case['ps']]
     lt = out['model']['lt']
     n = len(ps)
-    mixed = any(isinstance(a[i], int) != isinstance(b[i], int)
-                for a in ps for b in ps for i in range(min(len(a), len(b))))
-    tag = 'order:mixed-int-str-keys' if mixed else None
+    tag = None      # (before fix F38 failures on mixed int/str positions carried their own signature)
     for i in range(n):
       if lt[i][i]:
         return {'signature': 'order:irreflexive', 'what': '%r < itself' % (ps[i],)}
